@@ -10,6 +10,7 @@ import scipy.integrate as integrate_mod
 
 import yaml
 
+import spowtd.simulate_rise as simulate_rise_mod
 import spowtd.specific_yield as specific_yield_mod
 import spowtd.transmissivity as transmissivity_mod
 
@@ -28,7 +29,9 @@ def dump_simulated_recession(
 
     if observations_only:
         outfile.write('# Recession curve simulation vector\n')
-        yaml.dump(list(reversed(elapsed_time_d.tolist())), outfile)
+        simulate_rise_mod.dump_observation_vector(
+            list(reversed(elapsed_time_d.tolist())), outfile
+        )
     else:
         yaml.dump(
             (
